@@ -184,8 +184,8 @@ func addForeign(w *World) {
 func TestC12SM(t *testing.T) {
 	runSM(t, smSpec{
 		Name: "TestC12SM", Prop: "C12",
-		Rule: "population of two ExtendedDaemonSets (same name in another namespace, or another name in the same namespace; own templates and strategies) plus foreign pods carrying a matching name label in a third namespace and unlabelled pods in the EDS namespace; all reconciles interleaved through rollouts and canaries; monitor ownership (every write of a reconcile targets the reconciling EDS's own objects; active/canary replica set is an own one) and, at the end, status counters = own pods only; non-trivial = both EDS were reconciled and >= 2 replica sets synced; distinct by action trace",
-		Cfg: WorldCfg{MinNodes: 2, MaxNodes: 5, Letters: "ABC", Strategy: gen.StrategyOpts{Canary: 1}, Forks: 0, Affinity: 2, PlainNodes: true, TwoEDS: true, Warmup: 4, StartEdit: 1,
+		Rule: "population of two ExtendedDaemonSets (same name in another namespace, or another name in the same namespace; own templates and strategies) plus foreign pods carrying a matching name label in a third namespace and unlabelled pods in the EDS namespace; optionally a declared migration from an old DaemonSet (own pods of that DaemonSet next to pods with the same labels owned by another DaemonSet or by nobody, and a namesake DaemonSet in another namespace); all reconciles interleaved through rollouts and canaries; monitor ownership (every write of a reconcile targets the reconciling EDS's own objects; active/canary replica set is an own one) and, at the end, status counters = own pods only; non-trivial = both EDS were reconciled and >= 2 replica sets synced; distinct by action trace",
+		Cfg: WorldCfg{MinNodes: 2, MaxNodes: 5, Letters: "ABC", Strategy: gen.StrategyOpts{Canary: 1}, Forks: 0, Affinity: 2, PlainNodes: true, TwoEDS: true, Migration: true, Warmup: 4, StartEdit: 1,
 			Monitors: mon.Of("ownership", "no-panic"),
 			Weights:  weights(defaultWeights(), map[string]int{"round": 6, "edit-template": 4})},
 		MinSteps: 12, MaxSteps: 60,
